@@ -138,4 +138,177 @@ def revInsertSorter {α : Type} (le : α → α → Bool) (tr : ∀ a b c, le a 
     (tot : ∀ a b, (le a b || le b a) = true) : Sorter α le :=
   ⟨fun l => isort le l.reverse, fun l => (isort_perm le l.reverse).trans (reverse_perm l), fun l => isort_sorted le tr tot l.reverse⟩
 
+/-! ## the generic interpreter: equality, swap, separation -/
+
+theorem cmpNat_eq {a b : Nat} (h : cmpNat a b = .eq) : a = b := by
+  unfold cmpNat at h
+  split at h
+  · cases h
+  · split at h
+    · assumption
+    · cases h
+
+theorem cmpStr_eq {a b : String} (h : cmpStr a b = .eq) : a = b := by
+  unfold cmpStr at h
+  split at h
+  · cases h
+  · split at h
+    · assumption
+    · cases h
+
+theorem Val.cmp_eq {x y : Val} (h : x.cmp y = .eq) : x = y := by
+  cases x <;> cases y <;> simp only [Val.cmp] at h
+  · rw [cmpNat_eq h]
+  · cases h
+  · cases h
+  · rw [cmpStr_eq h]
+
+theorem swap_eq {o : Ordering} (h : o.swap = .eq) : o = .eq := by
+  cases o <;> simp [Ordering.swap] at h ⊢
+
+theorem cmpRec_eq_all : ∀ (keys : List SortKey) (a b : Rec), cmpRec keys a b = .eq → ∀ k ∈ keys, keyCmpR k a b = .eq := by
+  intro keys
+  induction keys with
+  | nil => intro a b _ k hk; simp at hk
+  | cons k ks ih =>
+    intro a b h k' hk'
+    simp only [cmpRec] at h
+    split at h
+    · rename_i heq
+      rcases mem_cons.mp hk' with h1 | h1
+      · rw [h1]; exact heq
+      · exact ih a b h k' h1
+    · rename_i o hne
+      exact absurd h (by intro h2; exact hne (by rw [h2]))
+
+/-- records over the same field list that agree on every field are equal -/
+theorem rec_ext : ∀ (fields : List String) (a b : Rec), a.map (·.1) = fields → b.map (·.1) = fields → fields.Nodup →
+    (∀ f ∈ fields, fieldOf a f = fieldOf b f) → a = b := by
+  intro fields
+  induction fields with
+  | nil =>
+    intro a b ha hb _ _
+    rw [map_eq_nil_iff.mp ha, map_eq_nil_iff.mp hb]
+  | cons f fs ih =>
+    intro a b ha hb hn hall
+    cases a with
+    | nil => simp at ha
+    | cons ea a' =>
+      cases b with
+      | nil => simp at hb
+      | cons eb b' =>
+        simp only [map_cons, cons.injEq] at ha hb
+        have hn' := nodup_cons.mp hn
+        have h0 := hall f (by simp)
+        simp only [fieldOf, find?_cons, ha.1, hb.1, beq_self_eq_true, Option.map_some, Option.some.injEq] at h0
+        have hea : ea = eb := by
+          cases ea; cases eb
+          simp only at ha hb h0
+          simp only [Prod.mk.injEq]
+          exact ⟨ha.1.trans hb.1.symm, h0⟩
+        have htail : a' = b' := by
+          apply ih a' b' ha.2 hb.2 hn'.2
+          intro g hg
+          have hgf : (f == g) = false := by
+            simp only [beq_eq_false_iff_ne, ne_eq]
+            intro h; subst h; exact hn'.1 hg
+          have h1 := hall g (by simp [hg])
+          simp only [fieldOf, find?_cons, ha.1, hb.1, hgf] at h1
+          exact h1
+        rw [hea, htail]
+
+/-- a comparator program whose keys cover every field of the element separates distinct elements -/
+theorem cover_separates (keys : List SortKey) (fields : List String) (a b : Rec) (ha : a.map (·.1) = fields)
+    (hb : b.map (·.1) = fields) (hn : fields.Nodup) (hcov : ∀ f ∈ fields, ∃ k ∈ keys, k.field = f)
+    (h : cmpRec keys a b = .eq) : a = b := by
+  apply rec_ext fields a b ha hb hn
+  intro f hf
+  obtain ⟨k, hk, hkf⟩ := hcov f hf
+  have hke := cmpRec_eq_all keys a b h k hk
+  have hfa : ∃ x, fieldOf a f = some x := by
+    have : f ∈ a.map (·.1) := by rw [ha]; exact hf
+    obtain ⟨e, he, hef⟩ := mem_map.mp this
+    cases hfind : a.find? (fun e => e.1 == f) with
+    | none =>
+      have := find?_eq_none.mp hfind e he
+      simp [hef] at this
+    | some e' => exact ⟨e'.2, by simp [fieldOf, hfind]⟩
+  have hfb : ∃ y, fieldOf b f = some y := by
+    have : f ∈ b.map (·.1) := by rw [hb]; exact hf
+    obtain ⟨e, he, hef⟩ := mem_map.mp this
+    cases hfind : b.find? (fun e => e.1 == f) with
+    | none =>
+      have := find?_eq_none.mp hfind e he
+      simp [hef] at this
+    | some e' => exact ⟨e'.2, by simp [fieldOf, hfind]⟩
+  obtain ⟨x, hx⟩ := hfa
+  obtain ⟨y, hy⟩ := hfb
+  rw [hx, hy]
+  unfold keyCmpR at hke
+  rw [hkf, hx, hy] at hke
+  simp only at hke
+  split at hke
+  · rw [Val.cmp_eq (swap_eq hke)]
+  · rw [Val.cmp_eq hke]
+
+theorem cmpNat_swap (a b : Nat) : cmpNat b a = (cmpNat a b).swap := by
+  unfold cmpNat
+  by_cases h1 : a < b
+  · have : ¬ b < a := by omega
+    have h3 : ¬ b = a := by omega
+    simp [h1, this, h3, Ordering.swap]
+  · by_cases h2 : a = b
+    · subst h2; simp [Ordering.swap]
+    · have : b < a := by omega
+      simp [h1, h2, this, Ordering.swap]
+
+theorem cmpStr_swap (a b : String) : cmpStr b a = (cmpStr a b).swap := by
+  unfold cmpStr
+  by_cases h1 : a < b
+  · have h2 : ¬ b < a := String.lt_asymm h1
+    have h3 : ¬ b = a := fun h => by subst h; exact String.lt_irrefl _ h1
+    simp [h1, h2, h3, Ordering.swap]
+  · by_cases h2 : a = b
+    · subst h2; simp [Ordering.swap]
+    · have h3 : b < a := by
+        have hle : b ≤ a := String.not_lt.mp h1
+        apply Classical.byContradiction
+        intro hn
+        exact h2 (String.le_antisymm (String.not_lt.mp hn) hle)
+      simp [h1, h2, h3, Ordering.swap]
+
+theorem Val.cmp_swap (x y : Val) : y.cmp x = (x.cmp y).swap := by
+  cases x <;> cases y <;> simp only [Val.cmp, Ordering.swap]
+  · exact cmpNat_swap _ _
+  · exact cmpStr_swap _ _
+
+theorem swap_swap (o : Ordering) : o.swap.swap = o := by cases o <;> rfl
+
+theorem keyCmpR_swap (k : SortKey) (a b : Rec) : keyCmpR k b a = (keyCmpR k a b).swap := by
+  unfold keyCmpR
+  cases fieldOf a k.field <;> cases fieldOf b k.field <;> try rfl
+  rename_i x y
+  simp only []
+  rw [Val.cmp_swap x y]
+  split <;> rfl
+
+theorem cmpRec_swap : ∀ (keys : List SortKey) (a b : Rec), cmpRec keys b a = (cmpRec keys a b).swap := by
+  intro keys
+  induction keys with
+  | nil => intro a b; rfl
+  | cons k ks ih =>
+    intro a b
+    simp only [cmpRec]
+    rw [keyCmpR_swap k a b]
+    cases h : keyCmpR k a b <;> simp only [Ordering.swap]
+    exact ih a b
+
+
+theorem leRec_antisymm (keys : List SortKey) (a b : Rec) (h1 : leRec keys a b = true) (h2 : leRec keys b a = true) :
+    cmpRec keys a b = .eq := by
+  unfold leRec at h1 h2
+  rw [cmpRec_swap keys a b] at h1
+  cases h : cmpRec keys a b <;> simp_all [Ordering.swap]
+
+
 end FxVerif.Proofs.C17
